@@ -57,9 +57,9 @@ func init() {
 			"(+2/3-any, decision, at most one decision, decision persists while the set is not discarded); vote sequences come from the network schedule (loss, duplication, reordering, vote-list relays) and, in profile storm, from Byzantine validators that re-vote with conflicting decisions and fresh timestamps; " +
 			"non-trivial = at least one vote set reached a decision and every correct node finalized a height; distinct = distinct event-log hash.",
 		CrashIsViolation: true, // a vote set that panics while tallying reports nothing
-		QuickProbes:     []string{"voteset_has_decision"},
-		EssentialProbes: []string{"voteset_has_decision", "byz_conflicting_vote_sent", "duplicate"},
-		Assumptions:     netsimAssume, Real: netsimReal, Stubbed: netsimStubbed, DesignRef: "4.1",
+		QuickProbes:      []string{"voteset_has_decision"},
+		EssentialProbes:  []string{"voteset_has_decision", "byz_conflicting_vote_sent", "duplicate"},
+		Assumptions:      netsimAssume, Real: netsimReal, Stubbed: netsimStubbed, DesignRef: "4.1",
 		LevelText: "monitor-based exploration: the tally invariant is re-evaluated on the real vote sets of running validators under seeded network and Byzantine vote schedules; cluster sizes 1..7 cover every threshold residue; evidence over sampled vote histories, not proof",
 		LevelNote: "reads the vote sets through a read-only verif accessor (consensus/export_verif.go); trusts the harness' recount",
 		Technique: "deterministic simulation with Byzantine vote storms and network faults, invariant monitor on live vote sets, tape minimisation and replay",
@@ -96,7 +96,7 @@ func init() {
 		QuickProbes:     []string{"byz_conflicting_vote_sent"},
 		EssentialProbes: []string{"byz_conflicting_vote_sent", "double_sign_report_checked"},
 		Assumptions:     append(append([]string{}, netsimAssume...), "only the 'reported' half of the property is decided here (evidence produced by the consensus double-sign log); acceptance of double-sign-report transactions by the ICON platform's DSR handler is not driven because the simulated chain runs the basic platform (stated in DESIGN.md)"),
-		Real: netsimReal, Stubbed: netsimStubbed, DesignRef: "4.1",
+		Real:            netsimReal, Stubbed: netsimStubbed, DesignRef: "4.1",
 		LevelText: "seeded exploration: evidence emitted by running validators under Byzantine equivocation and network duplication is re-judged by an independent decoder; evidence over sampled schedules, not proof",
 		LevelNote: "covers the reporting side (dsmLog -> SendDoubleSignReport); the transaction-acceptance side (DSR transaction PreValidate / DSRHandler) is outside this engine",
 		Technique: "deterministic simulation with Byzantine equivocation and duplication faults, independent evidence decoder as oracle, tape minimisation and replay",
